@@ -211,7 +211,11 @@ def lemma_block_job(ctx):
         total = z3.IntVal(0)
         for e in copied_sent:
             total = total + e.args[0].fields[0].t
-        ctx.lemma(eng, "C12: the Copied updates of a block job add up to the bytes the kernel reported", p.pc, total == done)
+        if errors_sent:
+            # the job gave up (e.g. end of file before the recorded length): what it reports must not exceed what was moved
+            ctx.lemma(eng, "C12: a block job that reports an error has not reported more bytes than the kernel moved", p.pc, total <= done)
+        else:
+            ctx.lemma(eng, "C12: the Copied updates of a block job add up to the bytes the kernel reported", p.pc, total == done)
         # C06/C10/C18: metadata/fsync are applied only by whoever drops the LAST reference, i.e. after every job's last write
         meta_ev = [i for i, e in enumerate(p.trace) if e.name in ("copy_permissions", "copy_timestamps", "copy_owner", "sync", "finalise")]
         zero = [i for i, e in enumerate(p.trace) if e.name == "arc_drop" and e.args[0].startswith("harc") and e.args[1] == 0]
@@ -369,6 +373,9 @@ def lemma_queue_file_blocks(ctx):
         cloned = rl and isinstance(rl[0].ret, BoolV)
         if q and cloned:
             ctx.lemma(eng, "C15: blocks are queued only when the clone did not happen", p.pc, z3.Not(rl[0].ret.t))
+        if q:
+            ctx.lemma(eng, "C15: with reflink=always no block is ever queued -- an unavailable clone is an error, not a silent fall-back to copying (parblock)",
+                      p.pc, z3.Not(enum_is(eng, p, mode, "Reflink", "Always")), info={"trace": names})
         if not q:
             # nothing queued: either cloned, or sparse with an empty extent list
             me = [e for e in p.trace if e.name == "map_extents" and e.ret == "ok"]
